@@ -128,14 +128,14 @@ class Prog:
 
     def __init__(self, rng, np_, exclude=()):
         self.rng, self.np, self.exclude = rng, np_, set(exclude)
-        self.lines = []
+        self.events = []          # list of events; an event = list of script lines that must stay together
         self.kinds = {}
         self.pending = [dict() for _ in range(np_)]        # rank -> {slot: (src, dst, tag)}
         self.burnt = [set() for _ in range(np_)]           # (src,dst,tag) of requests that were MPI_Test'ed on that rank
         self.nops = [0] * np_
 
     def emit(self, who, op, *args):
-        self.lines.append("%s %s %s" % (who, op, " ".join(str(a) for a in args)))
+        self.events[-1].append(("%s %s %s" % (who, op, " ".join(str(a) for a in args))).strip())
         self.kinds[op] = self.kinds.get(op, 0) + 1
         if who == "*":
             for r in range(self.np):
@@ -162,6 +162,7 @@ class Prog:
 
     def p2p(self, a=None, b=None, smode=None, rmode=None, count=None, dt=None, tag=None):
         rng = self.rng
+        self.events.append([])
         if a is None:
             a = rng.randrange(self.np)
             b = rng.randrange(self.np - 1)
@@ -177,9 +178,7 @@ class Prog:
         tag = self._tag(a, b) if tag is None else tag
         if tag is None:
             return
-        # the receive is posted first half of the time (both orders are safe: see module docstring)
-        order = [("r", b), ("s", a)] if rng.random() < 0.5 else [("s", a), ("r", b)]
-        for what, r in order:
+        for what, r in [("s", a), ("r", b)]:
             if what == "s":
                 if smode == "send":
                     self.emit(a, "send", b, tag, count, dt)
@@ -197,6 +196,7 @@ class Prog:
 
     def sendrecv(self):
         """Ring shift by k over all ranks, or a pairwise exchange; every participant calls MPI_Sendrecv."""
+        self.events.append([])
         rng, n = self.rng, self.np
         dt = rng.choice(P2P_DT)
         c = _count(rng, dt)
@@ -212,6 +212,7 @@ class Prog:
             self.emit(b, "sendrecv", c2, a, tag, c, a, tag, dt, dt)
 
     def coll(self, kind=None):
+        self.events.append([])
         rng, n = self.rng, self.np
         kinds = [k for k in COLLS if k not in self.exclude]
         kind = kind or rng.choice(kinds)
@@ -255,6 +256,7 @@ class Prog:
 
     def local(self):
         rng = self.rng
+        self.events.append([])
         r = rng.randrange(self.np)
         x = rng.random()
         if x < 0.25 and "sleep" not in self.exclude:
@@ -277,6 +279,7 @@ class Prog:
         for r in range(self.np):
             if not self.pending[r]:
                 continue
+            self.events.append([])
             if rng.random() < 0.5:
                 self.emit(r, "waitall")
             else:
@@ -284,7 +287,17 @@ class Prog:
                     self.emit(r, "wait", s)
             self.pending[r].clear()
         if rng.random() < 0.3:
+            self.events.append([])
             self.emit("*", "barrier")
+        self.events = [e for e in self.events if e]
+
+    def lines(self):
+        return [l for e in self.events for l in e]
+
+
+def script(events, close=False):
+    """Script text of a list of events; close=True appends a waitall for every rank (used when a program is truncated)."""
+    return "\n".join([l for e in events for l in e] + (["* waitall"] if close else [])) + "\n"
 
 
 def program(rng, np_, nev, exclude=(), weights=None):
